@@ -160,30 +160,3 @@ func nz(s string) string {
 	}
 	return s
 }
-
-// Debug prints the completion table of the canonical runs (development aid).
-func Debug(w interface{ Write([]byte) (int, error) }) {
-	for _, fast := range []bool{false, true} {
-		for _, f := range pedersenFaults(3, false) {
-			p := pcfg{n: 3, t: 2, fast: fast, fault: f, permNode: -1}
-			o := runPedersen(p, nil)
-			s := ""
-			for i, nd := range o.nodes {
-				if f.party >= 0 && i == f.party {
-					s += " [faulty]"
-					continue
-				}
-				if nd.res != nil {
-					q := ""
-					for _, n := range nd.res.QUAL {
-						q += fmt.Sprint(n.Index)
-					}
-					s += " ok(QUAL " + q + ")"
-				} else {
-					s += fmt.Sprintf(" ERR(%v)", nd.err)
-				}
-			}
-			fmt.Fprintf(w, "%s =>%s\n", p, s)
-		}
-	}
-}
